@@ -6,7 +6,7 @@ tier=$1; shift
 wt=/tmp/wt_eval
 for arg in "$@"; do
   rid=${arg%%:*}; checks=${arg#*:}; [ "$checks" = "$arg" ] && checks=${rid%%-*}
-  cd $wt && git checkout -q -- . && git apply /verif/refactors/$rid/patch.diff || { echo "REFACTOR $rid DOES NOT APPLY"; continue; }
+  cd $wt && git checkout -q -- . && git apply /verif/${REFDIR:-refactors}/$rid/patch.diff || { echo "REFACTOR $rid DOES NOT APPLY"; continue; }
   t=$(cd $wt && PYTHONPATH=$wt /venv/bin/python -m pytest -q -x -p no:cacheprovider 2>&1 | tail -1)
   for c in ${checks//,/ }; do
     cd /verif
